@@ -10,6 +10,8 @@ CONSTANTS
   SharedCatchPrev = FALSE
   AdvSet = {}
   MaxTime = 0
+  Keep = TRUE
+  WithEvict = FALSE
   Grid = {0}
   MaxInst = 2
 VIEW View
